@@ -321,7 +321,7 @@ func (u *Upstream) run(isResume bool) error {
 						DataPointGroups: dpg,
 					},
 				}
-				resultCh := make(chan *message.UpstreamChunkResult)
+				resultCh := make(chan *message.UpstreamChunkResult, 1) // buffered: the ack dispatcher hands the result over while holding the stream lock and must never wait for a receiver
 				u.mu.Lock()
 				u.upstreamChunkResultChs[chunk.StreamChunk.SequenceNumber] = resultCh
 				u.mu.Unlock()
@@ -485,7 +485,7 @@ func (u *Upstream) flush(ctx context.Context) error {
 		return err
 	}
 
-	resultCh := make(chan *message.UpstreamChunkResult)
+	resultCh := make(chan *message.UpstreamChunkResult, 1) // buffered: the ack dispatcher hands the result over while holding the stream lock and must never wait for a receiver
 	u.upstreamChunkResultChs[msgChunk.StreamChunk.SequenceNumber] = resultCh
 	go u.sendChunkAndWaitAck(ctx, msgChunk, resultCh)
 	return nil
